@@ -71,6 +71,8 @@ def _name_for(nc, j, ext, root, rng, canaries):
         return base
     if nc == "nested":
         return rng.choice([f"dir{j}/{base}", f"dir{j}/sub dir/{base}", f"a/b/c{j}/{base}"])
+    if nc == "dotslash":
+        return rng.choice([f"./{base}", f"./dir{j}/{base}", f"dir{j}/./{base}", f"./dir{j}/./sub/{base}"])
     if nc == "unicode":
         return rng.choice([f"dossier é{j}/日本語 {base}", f"Ünï cødé {j} {base}", f"папка{j}/{base}"])
     if nc == "absolute":
@@ -119,7 +121,7 @@ def concretise(members, root, rng, rich=False, limit=SMALL_LIMIT, tok0=1):
         kind, nc = m["kind"], m["nc"]
         mine = []
         c = {"kind": kind, "nc": nc, "tar": None, "link": "", "toks": mine}
-        hostile = nc not in ("plain", "nested", "unicode")
+        hostile = nc not in ("plain", "nested", "unicode", "dotslash")
         ext = rng.choice(TEXT_FMTS if (hostile or not rich) else RICH_FMTS)
         if kind == "doc":
             c["data"] = make_doc(ext, ids(rng.randint(1, 4)))
@@ -157,7 +159,7 @@ def concretise(members, root, rng, rich=False, limit=SMALL_LIMIT, tok0=1):
             raise ValueError(kind)
         name = _name_for(nc, j, ext, root, rng, canaries)
         if kind == "dir":
-            name = name.rsplit(".", 1)[0]
+            name = name.rsplit(".", 1)[0] if nc != "dotslash" else rng.choice([".", f"./d{j}", f"./d{j}/."])
         elif kind == "hidden":
             d, _, b = name.rpartition("/")
             name = (d + "/" if d else "") + rng.choice([".", "._"]) + b
@@ -172,6 +174,7 @@ def concretise(members, root, rng, rich=False, limit=SMALL_LIMIT, tok0=1):
             c["link"] = p
         c["name"] = name
         c["comps"] = name.split("/") if name else [""]
+        c["ncomps"] = [x for x in c["comps"] if x != "."] or [""]
         out.append(c)
     return out, canaries
 
@@ -372,6 +375,7 @@ def build_7z(members, coder="lzma2", layout="solid", enc=False, corrupt=None, rn
         else:
             c7 = ("crc", sum(len(f) for f in folders[:fi]) + folders[fi].index(j))
     data, info = sz.write_7z(entries, folders, coders=coders, encode_header=enc, gap=rng.choice([0, 0, 3, 40]),
+                             dict_size=sz.lzma2_dict(rng.randrange(13)),       # LZMA2 property bytes 0..12, odd ones too
                              always_nums=rng.random() < 0.3, attrs=rng.random() < 0.7, mtime=rng.random() < 0.3,
                              corrupt=c7)
     if c7 is None or c7[0] == "crc":
@@ -672,6 +676,7 @@ def run_case(case, wroot, audit=True):
                 base = ms[cor[0]]["name"].rsplit(".", 1)[0]
                 ms[cor[0]]["name"] = base + "." + rng.choice(["docx", "pdf", "xlsx", "pptx", "odt", "epub"])
                 ms[cor[0]]["comps"] = ms[cor[0]]["name"].split("/")
+                ms[cor[0]]["ncomps"] = [x for x in ms[cor[0]]["comps"] if x != "."] or [""]
                 variant = dict(variant, corrupt=None)
             data, apath = build_archive(case["fmt"], ms, variant, rng)
             lookup = {}
@@ -695,7 +700,7 @@ def run_case(case, wroot, audit=True):
                 for x in left:
                     shutil.rmtree(os.path.join(root, "tmp", x), ignore_errors=True)
             hdr = {"fmt": case["fmt"], "apath": apath, "hist": case["hist"],
-                   "members": [{"kind": m["kind"], "nc": m["nc"], "comps": m["comps"], "direct": d}
+                   "members": [{"kind": m["kind"], "nc": m["nc"], "comps": m["comps"], "ncomps": m["ncomps"], "direct": d}
                                for m, d in zip(ms, directs)]}
             traces.append({"id": f"{case['id']}/{vi}", "hdr": hdr, "ev": ev,
                            "dbg": {"variant": json.dumps(case["variants"][vi]), "names": [m["name"][:80] for m in ms],
